@@ -28,6 +28,7 @@ type ReplayFile struct {
 	Trace    []string    `json:"schedule"`
 	Events   []string    `json:"events"`
 	Shrink   string      `json:"minimisation"`
+	Force    *ForcedFault `json:"forced_fault,omitempty"`
 }
 
 type workerOut struct {
@@ -53,6 +54,9 @@ type workerOut struct {
 	ErrSeed      string         `json:"harness_error_seed,omitempty"`
 	Goroutines   int64          `json:"goroutines"`
 	KnownHits    map[string]int `json:"known_hits"`
+	EnumBases    int            `json:"enumerated_base_workloads"`
+	EnumRuns     int            `json:"enumerated_fault_runs"`
+	ViolReplay   string         `json:"violation_replay,omitempty"`
 }
 
 type knownFinding struct {
@@ -235,6 +239,17 @@ func workerSearch(t *testing.T, prop, tier string) {
 			out.ViolSeed = strconv.FormatUint(seed, 10)
 			break
 		}
+		// Systematic sweep (thorough tier, properties quantified over "a failure at
+		// every channel operation of a scenario"): re-run this workload once per
+		// operation index and fault kind of the library's channel end.
+		if tier == "thorough" && (prop == "C08" || prop == "C05") && out.Runs%6 == 0 && res.Inconclusive == "" {
+			if v, path := enumerateFaults(t, prop, tier, seed, res, outPath, known, out); v != nil {
+				out.Violation = v
+				out.ViolSeed = strconv.FormatUint(seed, 10)
+				out.ViolReplay = path
+				break
+			}
+		}
 	}
 	out.WallMS = time.Since(start).Milliseconds()
 	for p := range pairs {
@@ -251,6 +266,56 @@ func workerSearch(t *testing.T, prop, tier string) {
 		out.HashFile = hf
 		writeJSON(outPath, out)
 	}
+}
+
+// enumerateFaults runs the workload of base once per (channel operation, fault
+// kind), with the same workload tape and a fresh schedule each time.
+func enumerateFaults(t *testing.T, prop, tier string, seed uint64, base *Result, outPath string, known []knownFinding, out *workerOut) (*Violation, string) {
+	out.EnumBases++
+	type ff struct {
+		recv bool
+		n    int
+		kind []int
+	}
+	plan := []ff{{true, base.LibRecvOps + 1, []int{fRecvErr, fRecvDataEOF, fRecvDataErr}}, {false, base.LibSendOps + 1, []int{fSendErrLost, fSendErrAfter}}}
+	k := 0
+	for _, p := range plan {
+		for at := 0; at < p.n && at < 40; at++ {
+			for _, kind := range p.kind {
+				k++
+				Forced = &ForcedFault{Recv: p.recv, At: at, Kind: kind}
+				s2 := rt.SplitMix64(seed + uint64(k)*0x9e3779b97f4a7c15)
+				res := RunOne(t, prop, tier, s2, rt.NewReplay(base.Gen), rt.NewRandom(s2, 2), false)
+				f := Forced
+				Forced = nil
+				out.EnumRuns++
+				out.Steps += int64(res.Steps)
+				for kk, vv := range res.Faults {
+					out.Faults[kk] += vv
+				}
+				if res.Violation == nil {
+					continue
+				}
+				isKnown := false
+				for _, kf := range known {
+					if kf.matches(res.Violation) {
+						out.KnownHits[kf.Class]++
+						isKnown = true
+					}
+				}
+				if isKnown {
+					continue
+				}
+				// keep the exact run: workload tape, schedule tape and the forced fault
+				path := outPath + ".enum-replay.json"
+				writeJSON(path, &ReplayFile{Property: prop, Class: res.Violation.Class, Message: res.Violation.Msg, Seed: s2, Tier: tier,
+					Gen: res.Gen, Sched: res.Sched, Sample: res.Sample, Trace: res.Trace, Events: res.Events, Force: f,
+					Shrink: "not minimised (systematic fault sweep)"})
+				return res.Violation, path
+			}
+		}
+	}
+	return nil, ""
 }
 
 // workerMerge counts distinct case hashes over the hash files of all workers.
@@ -349,8 +414,26 @@ func shrinkTape(tape []rt.Choice, test func([]rt.Choice) bool, budget *int) []rt
 func workerMinimize(t *testing.T, prop, tier string) {
 	seed, _ := strconv.ParseUint(os.Getenv("VERIF_RUNSEED"), 10, 64)
 	outPath := os.Getenv("VERIF_OUT")
-	gen0, sched0 := randomSources(seed)
-	res := RunOne(t, prop, tier, seed, gen0, sched0, true)
+	var res *Result
+	var force *ForcedFault
+	if from := os.Getenv("VERIF_FROM"); from != "" {
+		// start from a recorded run (systematic fault sweep) instead of a seed
+		b, err := os.ReadFile(from)
+		var rf ReplayFile
+		if err == nil {
+			err = json.Unmarshal(b, &rf)
+		}
+		if err != nil {
+			fmt.Fprintln(os.Stderr, "minimize:", err)
+			os.Exit(2)
+		}
+		seed, force = rf.Seed, rf.Force
+		Forced = force
+		res = replayRun(t, prop, tier, seed, rf.Gen, rf.Sched, true)
+	} else {
+		gen0, sched0 := randomSources(seed)
+		res = RunOne(t, prop, tier, seed, gen0, sched0, true)
+	}
 	if res.Violation == nil {
 		fmt.Fprintf(os.Stderr, "minimize: seed %d does not reproduce (harness error %q)\n", seed, res.HarnessError)
 		os.Exit(2)
@@ -385,6 +468,7 @@ func workerMinimize(t *testing.T, prop, tier string) {
 	}
 	rf := &ReplayFile{Property: prop, Class: class, Message: final.Violation.Msg, Seed: seed, Tier: tier,
 		Gen: final.Gen, Sched: final.Sched, Sample: final.Sample, Trace: final.Trace, Events: final.Events,
+		Force:  force,
 		Shrink: fmt.Sprintf("gen tape %d -> %d choices, schedule/fault tape %d -> %d choices", g0, len(final.Gen), s0, len(final.Sched))}
 	writeJSON(outPath, rf)
 }
@@ -401,6 +485,7 @@ func workerReplay(t *testing.T) {
 		fmt.Fprintln(os.Stderr, err)
 		os.Exit(2)
 	}
+	Forced = rf.Force
 	res := replayRun(t, rf.Property, rf.Tier, rf.Seed, rf.Gen, rf.Sched, true)
 	out := map[string]any{"property": rf.Property, "expected_class": rf.Class, "diverged": res.Diverged, "events": res.Events, "harness_error": res.HarnessError, "inconclusive": res.Inconclusive}
 	if res.Violation != nil {
